@@ -9,7 +9,7 @@ from .. import gens, model, printing
 from ..core import Prop, Violation
 
 MUTATIONS = ["identity", "permute", "number_ulp0", "number_ulp1", "number_far", "number_sign", "number_nonfinite", "string_change",
-             "bool_flip", "type_change", "key_rename", "key_case", "member_add", "member_drop", "element_add", "element_drop",
+             "bool_flip", "type_change", "key_rename", "key_case", "member_add", "member_drop", "member_add_casevar", "key_nonletter_flip", "element_add", "element_drop",
              "element_swap", "raw_change", "independent"]
 
 
@@ -135,6 +135,36 @@ def mutate(a, kind, rnd):
         if n[0] in "AO" and repl[0] == n[0]:
             repl = ["A", []] if n[0] == "O" else ["O", []]
         return set_at(a, p, repl), True
+    if kind == "member_add_casevar":
+        # b = a plus a member whose key differs from an existing key only in letter case (legal for case-sensitive comparison)
+        p, n = pick(lambda n: n[0] == "O" and any(k.swapcase() != k for k, _ in n[1]))
+        if p is None:
+            return a, False
+        members = copy.deepcopy(n[1])
+        i = rnd.choice([i for i, (k, _) in enumerate(members) if k.swapcase() != k])
+        k = members[i][0]
+        pos = [j for j, ch in enumerate(k) if (65 <= ch <= 90 or 97 <= ch <= 122)]
+        j = rnd.choice(pos)
+        newk = k[:j] + bytes([k[j] ^ 0x20]) + k[j + 1:]
+        if any(newk == kk for kk, _ in members):
+            return a, False
+        val = copy.deepcopy(members[i][1]) if rnd.random() < 0.5 else ["N", 12345.0]
+        members.insert(rnd.randint(0, len(members)), [newk, val])
+        return set_at(a, p, ["O", members]), True
+    if kind == "key_nonletter_flip":
+        # flip bit 0x20 of a non-letter key byte ('[' <-> '{', '@' <-> '`', ...): different keys in BOTH modes
+        p, n = pick(lambda n: n[0] == "O" and any(any(c in b"[{@`]}^~_\\|" for c in k) for k, _ in n[1]))
+        if p is None:
+            return a, False
+        members = copy.deepcopy(n[1])
+        i = rnd.choice([i for i, (k, _) in enumerate(members) if any(c in b"[{@`]}^~_\\|" for c in k)])
+        k = members[i][0]
+        j = rnd.choice([j for j, c in enumerate(k) if c in b"[{@`]}^~_\\|"])
+        newk = k[:j] + bytes([k[j] ^ 0x20]) + k[j + 1:]
+        if any(model.fold(newk) == model.fold(kk) for kk, _ in members):
+            return a, False
+        members[i][0] = newk
+        return set_at(a, p, ["O", members]), True
     if kind in ("key_rename", "key_case", "member_add", "member_drop"):
         p, n = pick(lambda n: n[0] == "O" and (len(n[1]) >= 1 or kind == "member_add"))
         if p is None:
@@ -233,7 +263,8 @@ class C12(Prop):
         numbers = st.one_of(gens.finite_doubles(), st.sampled_from([1.0, 0.1, 1e300, 2.5, -3.0, 123456.789]))
         strings = st.one_of(gens.byte_strings(8), st.sampled_from([b"abc", b"ABC", b"", b"x"]))
         leaves = st.one_of(gens.scalars_built(strings=strings, numbers=numbers), st.sampled_from([b"{}", b"[1]", b"raw"]).map(lambda r: ["R", r]))
-        keys = st.one_of(gens.ascii_keys(4), gens.byte_strings(4), st.sampled_from([b"a", b"A", b"key", b"Key", b"k1", b"k2"]))
+        keys = st.one_of(gens.ascii_keys(4), gens.byte_strings(4), st.sampled_from([b"a", b"A", b"key", b"Key", b"k1", b"k2"]),
+                         st.sampled_from([b"[", b"{", b"@", b"`", b"a[0]", b"x_y", b"^", b"~", b"k|", b"k\\"]))
         tree = st.one_of(gens.shaped_documents(leaves, keys, max_leaves=12, min_leaves=3, unique_keys=True, fold_unique=True),
                          gens.shaped_documents(leaves, keys, max_leaves=12, min_leaves=4, unique_keys=True, fold_unique=True),
                          gens.shaped_documents(leaves, keys, max_leaves=5, unique_keys=True, fold_unique=True))
@@ -290,7 +321,12 @@ class C12(Prop):
         try:
             da = lib.dump(pa)[0]
             db = lib.dump(pb)[0]
-            for cs in (1, 0):
+            def fold_unique(jv):
+                return all(len(set(model.fold(k) for k, _ in n[1])) == len(n[1]) for n in model.walk_jv(jv) if n[0] == "O")
+            modes = (1, 0) if (fold_unique(a) and fold_unique(b)) else (1,)
+            if len(modes) == 1:
+                stats.cls("case_variant_keys_cs_only")
+            for cs in modes:
                 want = model.eq_set(a, b, bool(cs))
                 r1 = lib.cJSON_Compare(pa, pb, cs)
                 r2 = lib.cJSON_Compare(pb, pa, cs)
@@ -302,7 +338,7 @@ class C12(Prop):
                         cs, r1, "equal" if want else "different", kind, lib.dump(pa)[0][:200], lib.dump(pb)[0][:200]),
                         key="wrong:%s:%s" % (kind, "eq" if want else "ne"))
                 stats.cls("expect_equal" if want else "expect_different")
-            if model.eq_set(a, b, False) != model.eq_set(a, b, True):
+            if len(modes) == 2 and model.eq_set(a, b, False) != model.eq_set(a, b, True):
                 stats.cls("ci_differs_from_cs")
             # reflexive on valid (finite) trees, false on NULL
             finite = not any(n[0] == "N" and (n[1] != n[1]) for n in model.walk_jv(a))
